@@ -173,7 +173,16 @@ def main():
             elif head is not None and frame != "no-ipchub-frame":
                 crashes.append(dict(shard=shard, head=head, frame=frame, cur=cur, stderr=err_txt[-12000:]))
             else:
-                infra.append("shard %d: exit %d without result; stderr tail: %s" % (shard, rc, err_txt[-1500:]))
+                # keep the whole trace: an unexplained shard death must be diagnosable afterwards
+                keep = os.path.join(ROOT, "replay", prop)
+                os.makedirs(keep, exist_ok=True)
+                kp = os.path.join(keep, "infra-%s-seed%d-shard%d.txt" % (tier, seed, shard))
+                try:
+                    head_txt = err_txt[:60000]
+                    open(kp, "w").write("last case: %s\n\n%s\n...\n%s" % (cur, head_txt, err_txt[-60000:] if len(err_txt) > 60000 else ""))
+                except OSError:
+                    kp = "<not written>"
+                infra.append("shard %d: exit %d without result (trace kept in %s); stderr tail: %s" % (shard, rc, kp, err_txt[-1500:]))
 
         known, fixed = load_known()
         # ---- merge
